@@ -474,7 +474,15 @@ example :
       (newT (newProg .setSpeed) (some 7) (shape .setSpeed [.BatteryElectricLoco, .DummyLoco])))
       = List.replicate 6 [4, 4, 6] := by decide +kernel
 
-/-- the hypotheses of the Part A theorems hold of a concrete generated shape -/
+/-- the hypotheses of the Part A theorems (`wfStep`, `wfSave false`, `wfSet 1 []`, `Aligned`) hold of a
+    concrete generated shape as its constructor leaves it -/
 example : WF (shape .speedLimit [.ConventionalLoco, .HybridLoco]) := ⟨by decide, by decide, by decide⟩
+example : Aligned 1 (some 3) [] (newT (newProg .speedLimit) (some 3) (shape .speedLimit [.ConventionalLoco, .HybridLoco])) :=
+  (new_aligned .speedLimit [.ConventionalLoco, .HybridLoco] (some 3)).1
+
+/-- `Some(0)`: the model says panic, as the real code does -/
+example : (match walkR (stepOrder .consist) (walkInitSaves .consist) 3 false
+      (newT (newProg .consist) (some 0) (shape .consist [.BatteryElectricLoco])) with
+    | .panic _ => true | _ => false) = true := by decide +kernel
 
 end Altrios.Proofs.C19
